@@ -283,6 +283,13 @@ def sub_tokens(toks, pat, repl, tag, log, where, count=1):
                 caps.append(untok(toks[code[c][0]:code[c2][0]]).strip() if c2 > c else "")
                 c = c2
                 continue
+            if pt.kind == "ident" and pt.text == "_id_":
+                # any single identifier; captured like `__` (`$n` in the replacement)
+                if c >= len(code) or code[c][1].kind != "ident":
+                    return None
+                caps.append(code[c][1].text)
+                c += 1
+                continue
             if c >= len(code) or code[c][1].text != pt.text:
                 return None
             if pt.kind == "punct" and pt.text in ("(", "[", "{"):
